@@ -606,6 +606,19 @@ func runC18(p *an.Prog, r *an.Run, tier string) {
 			}
 			if !inLoop(cp.(ssa.Instruction)) {
 				bad = append(bad, "only one returned host is dialled")
+			} else if hdr := loopHeader(cp.Block()); hdr != nil {
+				// every iteration dials: from the loop header, the next iteration (the header again) is not reachable
+				// without passing ConnectPeer — a "seen before / already dialled" skip leaves a returned host unconnected
+				isCP := func(x ssa.Instruction) bool { return x == cp.(ssa.Instruction) }
+				for _, sc := range hdr.Succs {
+					if !hdr.Dominates(sc) || !an.ReachFrom([]*ssa.BasicBlock{sc}, nil)[hdr] {
+						continue // the exit edge
+					}
+					atHdr := func(x ssa.Instruction) bool { return x.Block() == hdr }
+					if in := pathFromBlock(ap, sc, isCP, atHdr); in != nil {
+						bad = append(bad, "an iteration over the returned hosts can go on to the next host without dialling this one (skip path reaching "+p.Pos(in.Pos())+")")
+					}
+				}
 			}
 			if reach := an.ReachAvoiding(ap, an.EdgeSet(an.ErrEdges(peerCall).Succ)); reach[cp.Block()] {
 				// the tolerated-error branches return ErrNoPeers; ConnectPeer must not be reachable on them
